@@ -741,7 +741,7 @@ def parse_model(ans, nsteps):
 # ------------------------------------------------------------------------------------------------
 # generators
 # ------------------------------------------------------------------------------------------------
-def gen_exhaustive(drv, cap, depth, rich, max_issue, max_frag, start=None, closing=None):
+def gen_exhaustive(drv, cap, depth, rich, max_issue, max_frag, start=None, closing=None, unsent=True):
     """All histories of `depth` events over the state-dependent alphabet (see notes/C08.md), enumerated
     breadth first; the model state after each prefix (from the driver) only decides which letters are
     enabled: after the transport is closed at most two more events from {I, D[H], A(30 s)} are explored
@@ -794,7 +794,8 @@ def gen_exhaustive(drv, cap, depth, rich, max_issue, max_frag, start=None, closi
                         letters.append(["A", T30])
                 letters.append(["PC"])
                 letters.append(["PE"])
-                letters.append(["PE", 1])
+                if unsent or rich:
+                    letters.append(["PE", 1])
                 if rich:
                     letters.append(["PC", 1])
                     letters.append(["LC", i, 1])
@@ -811,17 +812,17 @@ def gen_exhaustive(drv, cap, depth, rich, max_issue, max_frag, start=None, closi
     return leaves
 
 
-def gen_epochs(drv, cap, pre_depth, post_depth, rich=False):
+def gen_epochs(drv, cap, pre_depth, post_depth, rich=False, unsent=True):
     """the long-lived connection: EVERY way (over the basic alphabet, <= pre_depth events, <= 2 callers) of getting
     the connection abandoned, then [R] or [I, R] (a request refused while down, then the reconnect), then every
     continuation of post_depth events over the open alphabet (+ LL, + further closes) on the new epoch"""
     closing = []
-    gen_exhaustive(drv, cap, pre_depth, False, 2, 1, closing=closing)
+    gen_exhaustive(drv, cap, pre_depth, False, 2, 1, closing=closing, unsent=unsent)
     start = []
     for h in closing:
         start.append((h + [["R"]], dict(frag=0, lastA=False, closed_len=0, ep=1)))
         start.append((h + [["I"], ["R"]], dict(frag=0, lastA=False, closed_len=0, ep=1)))
-    return gen_exhaustive(drv, cap, post_depth, rich, 6, 1, start=start)
+    return gen_exhaustive(drv, cap, post_depth, rich, 6, 1, start=start, unsent=unsent)
 
 
 def gen_chunk_cuts():
@@ -1252,11 +1253,11 @@ def run(ctx):
         exh_info = []
         ep_plan = [(1, 2, 3), (2, 3, 2)] if tier == "quick" else [(1, 3, 3), (1, 2, 4), (2, 3, 3), (3, 2, 3)]
         for cap, pre, post in ep_plan:
-            leaves = gen_epochs(drv, cap, pre, post)
+            leaves = gen_epochs(drv, cap, pre, post, unsent=(tier != "quick"))
             exh_info.append(dict(cap=cap, stream="epochs", closing_prefix_depth=pre, continuation_depth=post, histories=len(leaves)))
             streams.append(("epochs-cap%d-%d+%d" % (cap, pre, post), [(cap, h) for h in leaves]))
         for cap, depth, rich, max_issue, max_frag in plan:
-            leaves = gen_exhaustive(drv, cap, depth, rich, max_issue, max_frag)
+            leaves = gen_exhaustive(drv, cap, depth, rich, max_issue, max_frag, unsent=(tier != "quick"))
             exh_info.append(dict(cap=cap, depth=depth, rich_alphabet=rich, histories=len(leaves), max_issue=max_issue,
                                  max_frag=max_frag))
             streams.append(("exh-cap%d-d%d%s" % (cap, depth, "-rich" if rich else ""), [(cap, h) for h in leaves]))
@@ -1264,10 +1265,10 @@ def run(ctx):
         cov.extra["exhaustive_part"] = exh_info
         cov.extra["exhaustive_alphabet"] = (
             "open: I (<= max_issue callers), D[H], D[E], F (<= max_frag), C r for every pending r and one completed r, "
-            "A 1 s, A 29 s (quick: never two A in a row), PC, PE, PE with unsent request bytes, LC (local close() by another task)"
+            "A 1 s, A 29 s (quick: never two A in a row), PC, PE, PE with unsent request bytes (thorough; in quick it is in the directed, epoch-prefix-free and random streams only), LC (local close() by another task)"
             + "; rich alphabet (thorough, see exhaustive_part) adds D[H,H], D[E,H], D[H,E], D[O], A 30 s and consecutive A"
             + "; after the transport closed: at most two more events from {I, D[H], A 30 s}; every history is followed by 31 s of silence")
-        n_rand = 2000 if tier == "quick" else 120000
+        n_rand = 1500 if tier == "quick" else 120000
         streams.append(("random", gen_random(rng(seed, "c08rand"), n_rand, 40)))
 
     n_mismatch = 0
